@@ -68,7 +68,7 @@ int MPI_File_open(MPI_Comm c, const char *fn, int amode, MPI_Info info, MPI_File
 { int rc = PMPI_File_open(c, fn, amode, info, fh); if (rc == MPI_SUCCESS) n_fh_c++; return rc; }
 int MPI_File_close(MPI_File *fh) { int rc = PMPI_File_close(fh); if (rc == MPI_SUCCESS) n_fh_f++; return rc; }
 
-static void c17_line(FILE *f, const char *head)
+static void c17_line(FILE *f, const char *head, int list)
 {
     int rank = 0, nfiles = -1;
     MPI_Offset heap = -1;
@@ -79,7 +79,7 @@ static void c17_line(FILE *f, const char *head)
             head, rank, (long long)heap, nfiles, n_type_c, n_type_f, n_comm_c, n_comm_f, n_info_c, n_info_f, n_fh_c, n_fh_f,
             n_type_commit);
     fflush(f);
-    if (heap > 0) { fflush(stdout); ncmpi_inq_malloc_list(); fflush(stdout); }
+    if (heap > 0 && list) { fflush(stdout); ncmpi_inq_malloc_list(); fflush(stdout); }
 }
 
 static FILE *c17_open(void)
@@ -99,13 +99,13 @@ void c17_report_now(const char *tag)
     FILE *f = c17_open();
     if (f == NULL) return;
     snprintf(head, sizeof head, "C17@%s", tag);
-    c17_line(f, head);
+    c17_line(f, head, 0);
     fclose(f);
 }
 
 int MPI_Finalize(void)
 {
     FILE *f = c17_open();
-    if (f != NULL) { c17_line(f, "C17"); fclose(f); }
+    if (f != NULL) { c17_line(f, "C17", 1); fclose(f); }
     return PMPI_Finalize();
 }
